@@ -99,6 +99,15 @@ def c08_step(tr, st, c):
     q = quantum_of(model)
     N, F = c["m"] * c["n"], c["m"] * c["k"]
     dt = int(model.n_temporal_units_by_step)
+    # an event is over only when nothing is left to rebuild, for industries and for households
+    post_ph = st["phases"].get("events_post")
+    if post_ph and post_ph["post"] is not None and not post_ph.get("exc"):
+        for i, trk in enumerate(post_ph["post"]["trackers"]):
+            if trk["kind"] == "rebuild" and trk["status"] == "finished":
+                left = sum(float(np.nansum(trk[k_])) for k_ in ("remI", "remH") if trk[k_] is not None)
+                if left > 0:
+                    out.append(viol("C08", t, f"event {i} is finished although reconstruction demand remains", remaining=left,
+                                    households=trk["remH"] is not None, industries=trk["remI"] is not None))
     pre_ph = st["phases"].get("events_pre")
     if pre_ph and pre_ph["post"] is not None and not pre_ph.get("exc"):
         post = pre_ph["post"]
